@@ -55,6 +55,6 @@ class Timer:
             # restarted from the timer's own callback: run() picks up the new
             # expiry when the callback returns (a process cannot interrupt itself)
             return
-        if not self.proc.processed:
+        if self.proc.is_alive:
             self.proc.interrupt("restart timer")
             self.proc = self.env.process(self.run(self.env))
